@@ -2246,7 +2246,11 @@ async fn handle_packet(
         inner.created_at.elapsed().as_nanos() as u64,
         Ordering::Relaxed,
     );
-    let b = packet[0];
+    // Relayed data can be empty (TURN Data indication with a zero-length DATA
+    // attribute, ChannelData of length 0): nothing to demultiplex.
+    let Some(&b) = packet.first() else {
+        return;
+    };
     if b < 2 {
         // STUN
         match StunMessage::decode(packet) {
